@@ -53,18 +53,219 @@ def put_text(path, text):
             f.write(text.encode('latin1'))
 
 
-def read_spectrum(path, mc, alias=False):
+def read_spectrum(path, mc, alias=False, bare=True):
     try:
         reader = dadi.Spectrum.fromfile if alias else dadi.Spectrum.from_file
         fs, comments = reader(path, mask_corners=mc, return_comments=True)
         r = describe(fs)
         r['comments'] = list(comments)
-        # without return_comments the bare spectrum comes back
-        fs2 = reader(path, mc)
-        r['bare_ok'] = type(fs2) is dadi.Spectrum and fs2.shape == fs.shape
+        if bare:
+            # without return_comments the bare spectrum comes back
+            fs2 = reader(path, mc)
+            r['bare_ok'] = type(fs2) is dadi.Spectrum and fs2.shape == fs.shape
         return r
     except Exception as e:
         return err(e)
+
+
+# ----------------------------------------------------------------------------------------------
+# memory layouts: the same logical spectrum held in differently strided memory
+
+def bits(a):
+    """exact identity of float entries (nan payloads and signed zeros included)"""
+    return np.ascontiguousarray(a, dtype=float).view(np.uint64) if np.asarray(a).dtype == float else np.ascontiguousarray(a)
+
+
+def view_of(a):
+    """(memory block by increasing address, offset of entry (0,..,0), strides in elements) of an ndarray,
+    verified by rebuilding the array from exactly these three"""
+    a = np.asarray(a)
+    base = a
+    while isinstance(base.base, np.ndarray):
+        base = base.base
+    base = base.view(np.ndarray)
+    isz = a.itemsize
+    if base.ndim == 0:
+        block = base.reshape(1)
+    else:
+        if any(st <= 0 for st, n in zip(base.strides, base.shape) if n > 1):
+            raise RuntimeError('owner of the memory is not a densely stored array: strides %r' % (base.strides,))
+        block = base.ravel(order='K')
+        if block.size != base.size or not (np.shares_memory(block, base) or base.size <= 1):
+            raise RuntimeError('owner of the memory is not dense')
+    off = a.__array_interface__['data'][0] - block.__array_interface__['data'][0]
+    if off % isz or any(st % isz for st in a.strides):
+        raise RuntimeError('unaligned view')
+    off //= isz
+    strides = [int(st // isz) for st in a.strides]
+    # rebuild from (block, off, strides) and compare bit for bit
+    idx = np.full(a.shape, off, dtype=np.int64)
+    for ax, (n, st) in enumerate(zip(a.shape, strides)):
+        sh = [1] * a.ndim; sh[ax] = n
+        idx = idx + (np.arange(n, dtype=np.int64) * st).reshape(sh)
+    if a.size and (idx.min() < 0 or idx.max() >= block.size):
+        raise RuntimeError('view leaves its block')
+    rebuilt = block[idx.ravel()].reshape(a.shape) if a.size else a
+    if not np.array_equal(bits(rebuilt), bits(a)):
+        raise RuntimeError('view extraction does not reproduce the array')
+    return {'block': fl(block) if a.dtype == float else [bool(t) for t in block],
+            'off': int(off), 'strides': strides, 'shape': [int(n) for n in a.shape],
+            'c_contiguous': bool(a.flags.c_contiguous), 'f_contiguous': bool(a.flags.f_contiguous)}
+
+
+def memory_order_differs(a):
+    """does walking the cells by increasing address (numpy.nditer / ravel(order='K')) give another sequence than ravel()?"""
+    a = np.asarray(a)
+    if a.ndim == 0:
+        return False
+    k = np.array([x for x in np.nditer(a, order='K')], dtype=a.dtype) if a.size else a.ravel()
+    return not np.array_equal(bits(k), bits(a.ravel()))
+
+
+def build_layout(kind, prm, L, M, folded, labels, extrap):
+    """a Spectrum with logical content (L, M, folded, labels, extrap) in the memory layout [kind]"""
+    cc = np.ascontiguousarray
+    def mk(dd, mm, lab=labels, **kw):
+        return dadi.Spectrum(dd, mm, mask_corners=False, data_folded=folded, check_folding=False, pop_ids=lab, extrap_x=extrap, **kw)
+    d = L.ndim
+    if kind in ('reorder_pops', 'transpose', 'np_transpose', 'ctor_permuted'):
+        perm = list(prm['perm']); inv = [int(t) for t in np.argsort(perm)]
+        if kind == 'reorder_pops':          # the library's own population reordering
+            pre = mk(cc(L.transpose(inv)), cc(M.transpose(inv)), None if labels is None else [labels[i] for i in inv])
+            return pre.reorder_pops([a + 1 for a in perm])
+        if kind == 'ctor_permuted':         # constructor handed an axis-permuted array (its copy keeps the stride order)
+            return mk(cc(L.transpose(inv)).transpose(perm), cc(M.transpose(inv)).transpose(perm))
+        pre = mk(cc(L.transpose(inv)), cc(M.transpose(inv)))
+        return pre.transpose(perm) if kind == 'transpose' else np.transpose(pre, perm)
+    if kind == 'T':
+        return mk(cc(L.T), cc(M.T)).T
+    if kind == 'swapaxes':
+        i, j = prm['axes']
+        return mk(cc(L.swapaxes(i, j)), cc(M.swapaxes(i, j))).swapaxes(i, j)
+    if kind == 'fortran':                   # Fortran-ordered input
+        return mk(np.asfortranarray(L), np.asfortranarray(M))
+    if kind in ('step', 'neg', 'nocopy_view'):
+        steps, offs, tails = prm['steps'], prm['offs'], prm['tails']
+        def embed(X, filler, order='C'):
+            """a larger block in which X sits at offs, every |step|-th cell, reversed where step < 0"""
+            bshape = [o + (n - 1) * abs(st) + 1 + t for n, st, o, t in zip(X.shape, steps, offs, tails)]
+            big = np.empty(bshape, dtype=X.dtype, order=order)
+            big[...] = filler(bshape)
+            sl_pos = tuple(slice(o, o + (n - 1) * abs(st) + 1, abs(st)) for n, st, o in zip(X.shape, steps, offs))
+            flip = tuple(slice(None, None, -1) if st < 0 else slice(None) for st in steps)
+            big[sl_pos] = X[flip]
+            sl = tuple(slice(o + (n - 1) * abs(st), (o - 1) if o > 0 else None, st) if st < 0 else slice(o, o + (n - 1) * st + 1, st)
+                       for n, st, o in zip(X.shape, steps, offs))
+            return big, sl
+        dfill = lambda bs: -7.25
+        mfill = lambda bs: (np.indices(bs).sum(axis=0) % 2 == 0)
+        if kind == 'nocopy_view':           # constructor with copy=False on views; the mask lives in a Fortran-ordered block
+            bigd, sl = embed(L, dfill)
+            bigm, slm = embed(M, mfill, order='F')
+            return mk(bigd[sl], bigm[slm], copy=False)
+        bigd, sl = embed(L, dfill)
+        bigm, _ = embed(M, mfill)
+        return mk(bigd, bigm)[sl]          # a slice of a larger Spectrum
+    if kind == 'mask_broadcast':            # constant mask given as a stride-0 view, not copied
+        return mk(L.copy(), np.broadcast_to(np.array(bool(M.flat[0])), L.shape), copy=False)
+    if kind == 'mask_scalar':               # constant mask given as a Python bool
+        return mk(L.copy(), bool(M.flat[0]))
+    if kind == 'nomask':                    # no masked entry, mask compressed to numpy.ma.nomask
+        fs = mk(np.asfortranarray(L) if prm.get('fortran') else L.copy(), None)
+        fs.shrink_mask()
+        return fs
+    raise ValueError(kind)
+
+
+def same_described(a, b):
+    return (a['shape'] == b['shape'] and a['mask'] == b['mask'] and a['folded'] == b['folded'] and a['pop_ids'] == b['pop_ids']
+            and (a['extrap_x'] == b['extrap_x']) and len(a['data']) == len(b['data'])
+            and all((x != x and y != y) or (x == y and np.signbit(x) == np.signbit(y)) for x, y in zip(a['data'], b['data'])))
+
+
+def reduce_record(fs, protocols=None):
+    pk = {}
+    try:
+        func, args = copyreg.dispatch_table[dadi.Spectrum](fs)
+        pk['reduce_func'] = getattr(func, '__name__', repr(func))
+        dat, msk, fol, pids, ex = args
+        pk['args'] = {'data_shape': [int(n) for n in np.shape(dat)], 'data': fl(dat),
+                      'mask_shape': [int(n) for n in np.shape(msk)], 'mask': [bool(t) for t in np.asarray(msk).ravel()],
+                      'folded': fol if isinstance(fol, bool) else repr(fol),
+                      'pop_ids': None if pids is None else list(pids),
+                      'extrap_x': None if ex is None else float(ex)}
+        pk['unpickled_args'] = describe(func(*args))
+    except Exception as e:
+        pk['reduce_error'] = err(e)
+    pk['protocols'] = {}
+    for proto in (range(0, pickle.HIGHEST_PROTOCOL + 1) if protocols is None else protocols):
+        try:
+            pk['protocols'][str(proto)] = describe(pickle.loads(pickle.dumps(fs, proto)))
+        except Exception as e:
+            pk['protocols'][str(proto)] = err(e)
+    return pk
+
+
+def do_layout(lay, c, fs0, d, base):
+    """every writer / reader / pickler on the spectrum [fs0] rebuilt in the memory layout [lay]"""
+    out = {'kind': lay['kind'], 'prm': lay['prm']}
+    L = np.array(fs0.data, dtype=float, order='C'); M = np.array(np.ma.getmaskarray(fs0), dtype=bool, order='C')
+    try:
+        fs = build_layout(lay['kind'], lay['prm'], L, M, fs0.folded, None if fs0.pop_ids is None else list(fs0.pop_ids), fs0.extrap_x)
+    except Exception as e:
+        out['build_error'] = err(e)
+        return out
+    out['built'] = describe(fs)
+    try:
+        out['data_view'] = view_of(fs.data)
+        out['mask_view'] = view_of(fs.mask)
+        out['mask_is_nomask'] = fs.mask is np.ma.nomask
+        out['memory_order_differs'] = {'data': memory_order_differs(fs.data), 'mask': memory_order_differs(fs.mask)}
+    except Exception as e:
+        out['view_error'] = err(e)
+    # ---- Spectrum.to_file / from_file under the configurations the harness asks for
+    out['writes'] = []
+    for k, cfg in enumerate(lay['configs']):
+        w = {'cfg': cfg}
+        f = base + '_L%s_%d%s' % (lay['kind'], k, '.fs.gz' if cfg['gz'] else '.fs')
+        try:
+            fs.to_file(f, precision=cfg['precision'], comment_lines=list(c['comments']), foldmaskinfo=cfg['fmi'])
+            w['text'] = raw_text(f)
+        except Exception as e:
+            w.update(err(e))
+        if 'text' in w:
+            w['read'] = read_spectrum(f, cfg['mc'], bare=False)
+        out['writes'].append(w)
+    out['unchanged'] = {}
+    def unchanged(stage):
+        now = describe(fs)
+        out['unchanged'][stage] = same_described(now, out['built'])
+        if not out['unchanged'][stage]:
+            out['after_' + stage] = now
+    unchanged('to_file')
+    # ---- Numerics.array_to_file on the masked object and on the bare data view
+    out['array'] = {}
+    for name, arr in (('masked', fs), ('plain', fs.data)):
+        a = {}
+        f = base + '_L%s_%s.txt' % (lay['kind'], name)
+        try:
+            Numerics.array_to_file(arr, f, precision=c['precision'], comment_lines=list(c['comments']))
+            a['text'] = raw_text(f)
+        except Exception as e:
+            a.update(err(e))
+        if 'text' in a:
+            try:
+                back, comments = Numerics.array_from_file(f, return_comments=True)
+                a['read'] = {'shape': [int(n) for n in back.shape], 'data': fl(back), 'comments': list(comments),
+                             'is_plain': type(back) is np.ndarray}
+            except Exception as e:
+                a['read'] = err(e)
+        out['array'][name] = a
+    unchanged('array_to_file')
+    # ---- pickle
+    out['pickle'] = reduce_record(fs, protocols=sorted({0, 2, pickle.HIGHEST_PROTOCOL}))
+    unchanged('pickle')
+    return out
 
 
 def do_case(c, d):
@@ -109,25 +310,7 @@ def do_case(c, d):
         rec['read_old'].append(read_spectrum(f_old, o['mc']))
 
     # ---- pickle
-    pk = {}
-    try:
-        func, args = copyreg.dispatch_table[dadi.Spectrum](fs)
-        pk['reduce_func'] = getattr(func, '__name__', repr(func))
-        dat, msk, fol, pids, ex = args
-        pk['args'] = {'data_shape': [int(n) for n in np.shape(dat)], 'data': fl(dat),
-                      'mask_shape': [int(n) for n in np.shape(msk)], 'mask': [bool(t) for t in np.asarray(msk).ravel()],
-                      'folded': fol if isinstance(fol, bool) else repr(fol),
-                      'pop_ids': None if pids is None else list(pids),
-                      'extrap_x': None if ex is None else float(ex)}
-        pk['unpickled_args'] = describe(func(*args))
-    except Exception as e:
-        pk['reduce_error'] = err(e)
-    pk['protocols'] = {}
-    for proto in range(0, pickle.HIGHEST_PROTOCOL + 1):
-        try:
-            pk['protocols'][str(proto)] = describe(pickle.loads(pickle.dumps(fs, proto)))
-        except Exception as e:
-            pk['protocols'][str(proto)] = err(e)
+    pk = reduce_record(fs)
     try:
         pk['deepcopy'] = describe(copy.deepcopy(fs))
     except Exception as e:
@@ -168,12 +351,22 @@ def do_case(c, d):
     put_text(f_am, c['array_mirror_text'])
     ar['read_model'] = read_array(f_am, False)
     rec['array'] = ar
+
+    # ---- the same spectrum in other memory layouts
+    rec['layouts'] = []
+    for lay in c.get('layouts', []):
+        try:
+            rec['layouts'].append(do_layout(lay, c, fs, d, base))
+        except Exception as e:
+            r = err(e); r['kind'] = lay['kind']; r['prm'] = lay['prm']; r['layout_driver_failed'] = True
+            rec['layouts'].append(r)
     return rec
 
 
 def main():
     cases = json.load(sys.stdin)
-    d = tempfile.mkdtemp(prefix='c14_')
+    shm = '/dev/shm'
+    d = tempfile.mkdtemp(prefix='c14_', dir=shm if os.path.isdir(shm) and os.access(shm, os.W_OK) else None)
     out = []
     try:
         for c in cases:
